@@ -8,5 +8,9 @@ QuickConfigSet == {[stale |-> "reject", unsafe |-> "reject", maxdepth |-> 3],
                    [stale |-> "warn",   unsafe |-> "accept", maxdepth |-> 32]}
 OneConfig == {[stale |-> "reject", unsafe |-> "reject", maxdepth |-> 32]}
 TwoShapes == {"siblings", "overlap"}
-AllShapes == {"chain", "siblings", "overlap", "twotals", "deep", "loop"}
+AllShapes == {"chain", "siblings", "overlap", "twotals", "deep", "loop", "halves"}
+(* every pair of rejected publication points in the shape "halves", each unsafe-vrps policy *)
+UnsafeShapes  == {"halves"}
+UnsafeConfigs == {[stale |-> "reject", unsafe |-> u, maxdepth |-> 32] : u \in {"reject", "warn", "accept"}}
+PointFaultsOnly(site, k) == site[1] = "mft" /\ k \in {"Missing", "Expired", "HashMismatch", "Stale"}
 =============================================================================
